@@ -2138,8 +2138,11 @@ hdf_close(NC *handle)
                 vp = (NC_var **)vars;
                 if (!IS_RECVAR(*vp) || (*vp)->ndg_ref == 0)
                     continue;
-                if ((GroupID = DFdiread(handle->hdf_file, DFTAG_NDG, (*vp)->ndg_ref)) < 0)
-                    continue; /* no such record in this file */
+                if ((GroupID = DFdiread(handle->hdf_file, DFTAG_NDG, (*vp)->ndg_ref)) < 0) {
+                    if (Hexist(handle->hdf_file, DFTAG_NDG, (*vp)->ndg_ref) == SUCCEED)
+                        HGOTO_FAIL(FAIL); /* it is there but cannot be read */
+                    continue;             /* no such record in this file */
+                }
                 while (!DFdiget(GroupID, &gtag, &gref)) /* (frees the list when it is exhausted) */
                     if (gtag == DFTAG_SDD)
                         sdd_ref = gref;
